@@ -1507,6 +1507,8 @@ class sptensor:
             raise ValueError(
                 "Cannot call nvecs on sptensor with only singleton dimensions"
             )
+        if n not in range(self.ndims) or not 0 < r <= self.shape[n]:
+            assert False, "n must be a mode and r between 1 and the extent of mode n"
         # Gram matrix of the mode-n unfolding
         # Work in double precision whatever the dtype of the stored values
         Xn = self.to_sptenmat(rdims=np.array([n])).double().astype(np.float64)
